@@ -108,6 +108,12 @@ def _gen_a(ci, dom):
         if not roots:
             return {"t": "new", "r": 0, "id": w.next_id()}
         c = draw(st.integers(0, 19))
+        if c == 19 and len(w.res) < 2:
+            # a second collection of the same class on another resource: its nested children are
+            # stored into the first one (and vice versa) - every node must end up rooted where it lives
+            return {"t": "newres", "cls": ci.name, "doc": enc(draw(dom.doc(ci.kind)))}
+        if len(w.res) > 1 and not any(w.handles[i].res == 1 for i in roots):
+            return {"t": "new", "r": 1, "id": w.next_id()}
         if ci.buffered:
             if c < 2 and len(w.stack) < 3:
                 return {"t": "enter_obj", "h": roots[0]}
@@ -127,7 +133,7 @@ def _gen_a(ci, dom):
         if hi is None:
             return None
         if draw(st.integers(0, 9)) < 8:
-            return gen.draw_mutator(draw, w, hi, dom, p_raise=1, tuples=True)
+            return gen.draw_mutator(draw, w, hi, dom, p_raise=1, tuples=True, refs=len(w.res) > 1)
         return gen.draw_read(draw, w, hi, dom, refs=False)
     return g
 
@@ -169,6 +175,8 @@ def run_attr_case(case):
         model = attr_doc()
         res.write(copy.deepcopy(model))
         root = res.make(ci)
+        writer = res.make(ci)       # a second object on the same file (steps with via == "other")
+        retained = {}               # path -> child node kept by the user (case["retain"])
         prot = cls._PROTECTED_KEYS
         for n, st_ in enumerate(case["steps"]):
             path = tuple(dec(st_["path"]))
@@ -178,12 +186,24 @@ def run_attr_case(case):
                 continue
             if not isinstance(mnode, dict):
                 continue
-            node = root
-            for k in path:
-                node = node[k]
+            other = st_.get("via") == "other"
+            if case.get("retain") and not other and path in retained:
+                node = retained[path]       # no fresh navigation: nothing has loaded since
+            else:
+                node = writer if other else root
+                for k in path:
+                    node = node[k]
+                if case.get("retain") and not other:
+                    retained[path] = node
             if type(node) is not cls:
                 raise Mismatch("wrong_family", path=list(path), got=type(node).__name__)
             k, op, syn = st_["k"], st_["op"], st_["syn"]
+            if other:
+                syn = "item"
+            if op in ("set", "del"):
+                # a position that is (re)assigned or removed: children retained below it are unspecified
+                for rp in [rp for rp in retained if rp[:len(path) + 1] == path + (k,)]:
+                    del retained[rp]
             kc = key_class(cls, k)
             val = dec(st_.get("v"))
             before_vars = {n_: id(v) for n_, v in vars(node).items() if n_ != "_data"}
@@ -369,8 +389,14 @@ def _draw_attr_case(draw, cname):
                 syn = "item"      # equivalence is not claimed; item ops must still leave internals alone
         steps.append({"path": enc(list(draw(st.sampled_from(NODE_PATHS)))), "k": k, "op": op,
                       "syn": syn, "v": enc(draw(st.sampled_from([1, "s", None, {"n": [1]}, [1, {"m": 2}], {}])))})
+    retain = draw(st.booleans())
+    if retain:
+        # a second object on the file writes between the user's accesses through retained children
+        for s_ in steps:
+            if s_["op"] in ("set", "del") and draw(st.integers(0, 2)) == 0:
+                s_["via"] = "other"
     return {"property": ID, "engine": "c18attr", "class": cname, "steps": steps,
-            "retarget": draw(st.booleans())}
+            "retarget": draw(st.booleans()), "retain": retain}
 
 
 # ------------------------------------------------------------------ (c) sibling classes on one file
